@@ -26,9 +26,14 @@ from fractions import Fraction
 import impl
 import geom
 import posgen
+import dfxpdoc7
 from geom import exact, Some
 from wire import Ok, Err, oracle_batch, r_result
 from pycaption import DFXPWriter, DFXPReader, WebVTTWriter, WebVTTReader
+try:
+    from pycaption.dfxp.base import DFXP_DEFAULT_REGION_ID
+except ImportError:                      # the constant moved: the default region is then recognised by its usual id
+    DFXP_DEFAULT_REGION_ID = "bottom"
 
 TABLES = ("GenGeom.v",)
 HN = ["left", "center", "right", "start", "end"]
@@ -148,12 +153,25 @@ def stream_settings(ctx, res, printed):
         reqs_t.append((1302, [rel, fit, oq(w), oq(h), wl]))
     models = oracle_batch(reqs_m)
     trans = oracle_batch(reqs_t)
+    texts = oracle_batch([(1321, a) for _, a in reqs_m])     # wave 7: the settings TEXT of the model (model/VttText.v)
+    text_same = text_tie = text_neg = 0
     ok_reqs, ok_idx = [], []
     outside = 0
     refused = 0
     for i, ((l, rel, fit, (w, h)), o, m, t) in enumerate(zip(cases, obs, models, trans)):
         res["evaluations"] += 1
         mm = r_result(m)
+        mt = r_result(texts[i])
+        if isinstance(o, Ok) and isinstance(mt, Ok):
+            if o.v == mt.v:
+                text_same += 1
+            elif isinstance(mm, Ok) and mm.v[0] == 2 and any(x != [] and x[0][0][0] < 0 for x in mm.v[2:5]):
+                text_neg += 1        # a negative length (paddings wider than the cue) is outside the size language: not compared as text
+            elif [x.split(":")[0] for x in o.v.split()] == [x.split(":")[0] for x in mt.v.split()] and same_out(mm.v, o.v, printed):
+                text_tie += 1        # same keys in the same order, a value printed on the other side of a binary64 rounding tie
+            else:
+                res["disagreements"].append({"replay": "settings", "input": [l, rel, fit, w, h], "stream": "settings-text",
+                                             "impl": o.v, "model": mt.v})
         base = {"replay": "settings", "input": [l, rel, fit, w, h]}
         if isinstance(o, Err) or isinstance(mm, Err):
             refused += 1         # refusal / error class: C13's business - counted
@@ -192,6 +210,8 @@ def stream_settings(ctx, res, printed):
                                               f"(omitted iff center) / position = x + left padding / line = y + top padding / "
                                               f"size = width - left - right padding"})
     res["distribution"]["settings_cases"] = len(cases)
+    res["distribution"]["settings_text_identical_to_the_model's(request 1321) / differing by a rounding tie only / negative size (not compared)"] = \
+        [text_same, text_tie, text_neg]
     res["distribution"]["settings_arithmetic_checked"] = len(ok_idx)
     res["distribution"]["settings_cases_outside_the_statement(no origin / not resolvable to percentages: counted)"] = outside
     res["distribution"]["settings_cases_refused_or_raising(C13: counted)"] = refused
@@ -393,6 +413,19 @@ def check_verbatim(doc, chosen, cfg, res, history=None):
     rel, fit, w, h = cfg
     cs = impl.call(lambda: WebVTTReader().read(doc))
     base = {"replay": "verbatim", "input": doc, "cfg": [rel, fit, w, h]}
+    if not history and isinstance(cs, Ok):
+        # wave 7: the reader's side of the clause inside the model (model/VttSettings.v, request 1213): what the reader keeps of
+        # every timing line = the model's group 3, and the model's re-reading of the line the writer prints for it
+        tls = [l for l in doc.split("\n") if "-->" in l]
+        kept = [None if c.layout_info is None else c.layout_info.webvtt_positioning
+                for c in cs.v.get_captions(cs.v.get_languages()[0])]
+        ms = oracle_batch([(1213, l) for l in tls])
+        mk = [None if m[0] != 2 else m[1] for m in ms]
+        READER[0] += len(tls)
+        if any(m[0] == 0 for m in ms) or mk != kept:
+            res["disagreements"].append(dict(base, stream="vtt-reader-settings", impl=repr(kept)[:300], model=repr(mk)[:300]))
+        if any(m[0] == 2 and m[2] != m[1] for m in ms):
+            res["disagreements"].append(dict(base, stream="vtt-reader-settings-reread", impl="-", model=repr(ms)[:300]))
     if history:
         base["history"] = [[f, list(c)] for f, c in history]
     res["evaluations"] += 1
@@ -516,8 +549,12 @@ def check_dfxp_case(acs, cfg, res, history=None):
     """returns an outcome tag"""
     rel, fit, w, h = cfg
     cs = build_with_history(acs, history)
-    r = impl.call(lambda: DFXPReader().read(DFXPWriter(relativize=rel, fit_to_screen=fit, video_width=w,
-                                                       video_height=h).write(cs)))
+    written = [None]
+
+    def write_read():
+        written[0] = DFXPWriter(relativize=rel, fit_to_screen=fit, video_width=w, video_height=h).write(cs)
+        return DFXPReader().read(written[0])
+    r = impl.call(write_read)
     res["evaluations"] += 1
     base = {"replay": "dfxp", "cfg": list(cfg), "input": acs}
     if history:
@@ -537,7 +574,10 @@ def check_dfxp_case(acs, cfg, res, history=None):
     ids = posgen.word_ids(acs)
     words = {v: k for k, v in ids.items()}
     # the tree model: region table, region attributes on div/p/span, nearest-ancestor resolution on read (1210)
-    tm = r_result(oracle_batch([(1210, [g, posgen.w_dset(acs, m.v, ids)])])[0])
+    dset = posgen.w_dset(acs, m.v, ids)
+    tm, wm = oracle_batch([(1210, [g, dset]), (1211, [g, dset])])
+    tm = r_result(tm)
+    doc_dis = check_written_document(written[0], wm, words, base, res)
     model_words = {}
     if isinstance(tm, Ok):
         for rl in tm.v:
@@ -611,7 +651,48 @@ def check_dfxp_case(acs, cfg, res, history=None):
     if bad:
         res["violations"].append(bad)
         return "known-shape" if bad.get("shape") else "viol"
+    if doc_dis:
+        res["disagreements"].append(doc_dis)
+        return "dis"
     return "ok"
+
+
+DOCS = {}
+
+
+def check_written_document(doc, wm, words, base, res):
+    """wave 7: the document as written against the model's document (request 1211 = write_doc_clean: region table, region
+    attributes on div / p / span, cleanup_regions).  Returns a disagreement record (the region a WORD sits in, read off the
+    document by lxml - own region attribute of the innermost element, else the nearest ancestor's - has other attributes
+    than in the model's document, or names no region) or None; whole-document differences that leave every word in the same
+    region (placement of redundant attributes, unreferenced regions, ids) are counted only."""
+    def count(k):
+        DOCS[k] = DOCS.get(k, 0) + 1
+    if doc is None or wm == [-1]:
+        count("not_compared(no document / model request malformed)")
+        return None
+    real = dfxpdoc7.parse_written(doc, list(words.values()))
+    if real is None:
+        count("not_compared(document is not well-formed XML: unbalanced style nodes)")
+        return None
+    mr, md, created = dfxpdoc7.model_doc(wm, words)
+    count("documents_compared")
+    if created > len(mr):
+        count("documents_in_which_cleanup_regions_removed_a_region(model)")
+    DOCS["regions_in_compared_documents"] = DOCS.get("regions_in_compared_documents", 0) + len(mr)
+    rw, mw = dfxpdoc7.word_regions(*real), dfxpdoc7.word_regions(mr, md)
+    for wd in mw:
+        s = dfxpdoc7.same_attrs(rw.get(wd), mw[wd])
+        if s == "tie":
+            count("word_regions_printed_on_the_other_side_of_a_rounding_tie")
+        elif s == "diff":
+            return dict(base, stream="dfxp-document", word=wd, impl=repr(rw.get(wd, "word not found"))[:300], model=repr(mw[wd])[:300])
+    count("words_whose_region_in_the_document_is_the_model's")
+    DOCS["words_whose_region_in_the_document_is_the_model's"] += len(mw) - 1
+    whole = dfxpdoc7.same_document(real, (mr, md), DFXP_DEFAULT_REGION_ID)
+    count("whole_document_identical_up_to_region_renaming" if whole in ("same", "tie")
+          else "whole_document_differs(information: %s)" % whole)
+    return None
 
 
 def stream_dfxp(ctx, res):
@@ -738,7 +819,186 @@ def stream_history(ctx, res, printed):
     res["distribution"]["history(two writes of one CaptionSet object; the second document judged for its own options)"] = out
 
 
+# ------------------------------------------------------------------------------------------------ E
+def run_sequence(fmt, cfg, seq, same_writer):
+    """seq: [(acs, lang or None)] written one after the other - by ONE writer object, or by a fresh writer per write"""
+    rel, fit, w, h = cfg
+    W = DFXPWriter if fmt == "dfxp" else WebVTTWriter
+    mk = lambda: W(relativize=rel, fit_to_screen=fit, video_width=w, video_height=h)  # noqa: E731
+    writer = mk() if same_writer else None
+    outs = []
+    for acs, lang in seq:
+        wr = writer if same_writer else mk()
+        cs = posgen.build(acs)
+        if lang is None:
+            outs.append(impl.call(lambda: wr.write(cs)))
+        elif fmt == "dfxp":
+            outs.append(impl.call(lambda: wr.write(cs, force=lang)))
+        else:
+            outs.append(impl.call(lambda: wr.write(cs, lang=lang)))
+    return outs
+
+
+def observe_document(fmt, out):
+    """what the statement fixes of a written document: WebVTT - every timing line with its cue settings; DFXP - the
+    effective layout of every word after reading the document back"""
+    if isinstance(out, Err):
+        return ("raised", out.code)
+    if fmt == "vtt":
+        return ("vtt", [(t, s) for t, s, _ in vtt_cues(out.v)])
+    r = impl.call(lambda: DFXPReader().read(out.v))
+    if isinstance(r, Err):
+        return ("unreadable", r.code)
+    return ("dfxp", sorted((k, None if v is None else repr(geom.r_layout_plain(v.v))) for k, v in word_layouts(r.v).items()))
+
+
+def check_same_writer(fmt, cfg, seq, res):
+    """the i-th document written by a reused writer object must position its cues / words exactly as a fresh writer does for
+    the same set (whose output the other streams judge for that set's own layouts)"""
+    reused = run_sequence(fmt, cfg, seq, True)
+    fresh = run_sequence(fmt, cfg, seq, False)
+    res["evaluations"] += len(seq)
+    for i, (a, b) in enumerate(zip(reused, fresh)):
+        oa, ob = observe_document(fmt, a), observe_document(fmt, b)
+        if oa != ob:
+            res["violations"].append({
+                "kind": "writer-object-history", "replay": "same-writer", "fmt": fmt, "cfg": list(cfg),
+                "input": [[acs, lang] for acs, lang in seq], "index": i, "impl_obs": repr(oa)[:500],
+                "what": f"write number {i + 1} of one {fmt} writer object (relativize={cfg[0]}, fit={cfg[1]}, video {cfg[2]}x{cfg[3]}) "
+                        f"positions its document differently from a fresh writer on the same caption set: {repr(oa)[:200]} "
+                        f"instead of {repr(ob)[:200]}"})
+            return "viol"
+    return "ok"
+
+
+def one_lang(name, ll, cl, nl, word):
+    nodes = [["text", word + "a", None], ["break", None]] + \
+        ([["style", True, nl], ["text", word + "b", nl], ["style", False, nl]] if nl else [["text", word + "b", None]])
+    return {"name": name, "layout": ll, "caps": [{"layout": cl, "nodes": nodes}, {"layout": None, "nodes": [["text", word + "c", None]]}]}
+
+
+def stream_same_writer(ctx, res, printed):
+    """sequences of 2-3 writes on ONE writer object: a set positioned at language / caption / node level, then a set without
+    any layout (as read from SRT), then a set with another layout; a two-language set written for its first language and
+    then with lang= / force= for the second (and the other way round)"""
+    rng = ctx.rng
+    L, C, S = posgen.PCT_LAYOUTS["L"], posgen.PCT_LAYOUTS["C"], posgen.PCT_LAYOUTS["S2"]
+    mk = lambda *langs: {"global": None, "langs": list(langs)}  # noqa: E731
+    A = mk(one_lang("en-US", L, None, None, "la"))          # language-level layout only (a DFXP <div region>)
+    N = mk(one_lang("en-US", None, None, None, "no"))       # no layout at all (SRT)
+    B = mk(one_lang("en-US", C, None, None, "lb"))
+    Ac = mk(one_lang("en-US", None, C, None, "ca"))
+    An = mk(one_lang("en-US", None, None, S, "na"))
+    T = mk(one_lang("en-US", L, None, None, "te"), one_lang("fr", None, None, None, "tf"))
+    T2 = mk(one_lang("en-US", None, None, None, "ue"), one_lang("fr", C, None, None, "uf"))
+    seqs = [[(A, None), (N, None)], [(N, None), (A, None)], [(A, None), (N, None), (B, None)], [(B, None), (A, None)],
+            [(Ac, None), (N, None)], [(An, None), (N, None)], [(A, None), (Ac, None), (N, None)],
+            [(T, None), (T, "fr")], [(T, "fr"), (T, None)], [(A, None), (T, "fr")], [(T2, "fr"), (T2, None)], [(T2, "fr"), (N, None)],
+            [(B, None), (T, "fr"), (N, None)]]
+    out = {}
+    stats = {"split": 0, "mixed": 0, "refused": 0, "span": 0, "cue_settings": 0}
+    cfgs = [(False, False, None, None), DEFAULT_CFG, (True, True, 640, 360)]
+    for acs in (A, N, B, Ac, An):
+        # the fresh-writer documents of these sets are judged by the usual oracles
+        check_vtt_case(acs, DEFAULT_CFG, res, printed, stats)
+        check_dfxp_case(acs, DEFAULT_CFG, res)
+    for seq in seqs:
+        for fmt in ("vtt", "dfxp"):
+            for cfg in cfgs:
+                k = fmt + ":" + check_same_writer(fmt, cfg, seq, res)
+                out[k] = out.get(k, 0) + 1
+                res["nontrivial"].add(("same-writer", fmt, repr(seq), cfg))
+    for i in range(ctx.n(60, 1500)):
+        pool = [posgen.gen_layout(rng, (2,), p_none=0.3) for _ in range(3)]
+        seq = []
+        for j in range(rng.randint(2, 3)):
+            levels = rng.choice([(), ("lang",), ("cap",), ("node",), ("lang", "cap", "node")])
+            acs = posgen.gen_capset(rng, (2,), nlangs=(1, 2), ncaps=(1, 2), levels=levels, pool=pool, p_level=0.8)
+            lang = acs["langs"][1]["name"] if len(acs["langs"]) > 1 and rng.random() < 0.5 else None
+            seq.append((acs, lang))
+        fmt = "vtt" if i % 2 == 0 else "dfxp"
+        cfg = rng.choice(cfgs)
+        k = fmt + ":" + check_same_writer(fmt, cfg, seq, res)
+        out[k] = out.get(k, 0) + 1
+        res["nontrivial"].add(("same-writer-random", fmt, repr(seq), cfg))
+    res["distribution"]["same_writer_object(2-3 writes on one writer object; each document compared with a fresh writer's for the same set)"] = out
+
+
+# ------------------------------------------------------------------------------------------------ F
+ALIGN_DOC = ('<?xml version="1.0" encoding="utf-8"?>\n<tt xml:lang="en" xmlns="http://www.w3.org/ns/ttml" '
+             'xmlns:tts="http://www.w3.org/ns/ttml#styling">\n <head><layout><region xml:id="r9" tts:origin="10%% 10%%"%s/></layout></head>\n'
+             ' <body><div xml:lang="en-US"><p begin="00:00:01.000" end="00:00:02.000" region="r9">hello</p></div></body>\n</tt>\n')
+
+
+def stream_alignment_names(ctx, res):
+    """wave 7: tts:textAlign / tts:displayAlign at string level (model/DfxpAlign.v, requests 1214 / 1215).
+    Reader: a region with every pair of attribute values (the TTML names, absent, empty, unknown, upper case) is read by
+    DFXPReader and the caption's alignment compared with read_alignment; on names / absent values the statement's clause
+    'absent parts taking the DFXP defaults (start / after)' is the property oracle.  Writer: the names printed in <region>
+    for every alignment are the model's written_alignment (and the tables of dfxpdoc7 are the model's names)."""
+    tas = [None, "", "left", "start", "center", "right", "end", "justify", "LEFT"]
+    das = [None, "", "before", "center", "after", "top"]
+    cases = [(ta, da) for ta in tas for da in das]
+    ms = oracle_batch([(1214, [None if ta is None else Some(ta), None if da is None else Some(da)]) for ta, da in cases])
+    n = 0
+    for (ta, da), m in zip(cases, ms):
+        att = ("" if ta is None else ' tts:textAlign="%s"' % ta) + ("" if da is None else ' tts:displayAlign="%s"' % da)
+        doc = ALIGN_DOC % att
+        r = impl.call(lambda: DFXPReader().read(doc))
+        res["evaluations"] += 1
+        base = {"replay": "align-names", "input": [ta, da]}
+        if isinstance(r, Err):
+            res["violations"].append(dict(base, kind="dfxp-alignment-names", impl_obs=repr(r),
+                                          what=f"DFXPReader raised {r!r} on a region with textAlign={ta!r} displayAlign={da!r}"))
+            continue
+        lay = r.v.get_captions("en-US")[0].layout_info
+        al = None if lay is None or lay.alignment is None else geom.w_alignment(lay.alignment)
+        obs = None if al is None else tuple(None if x is None else x.v for x in al)
+        mod = None if m == [] else tuple(None if x == [] else x[0] for x in m[0])
+        if (ta in HN or ta is None) and (da in dfxpdoc7.VALIGN or da is None):
+            # (an EMPTY attribute value is not "absent" by the letter: compared with the model only, like unknown names)
+            want = (HN.index(ta) if ta else 3, dfxpdoc7.VALIGN.index(da) if da else 2)
+            n += 1
+            if obs != want:
+                res["violations"].append(dict(base, kind="dfxp-alignment-names", impl_obs=repr(obs),
+                                              what=f"a region with textAlign={ta!r} displayAlign={da!r} is read as alignment {obs!r} "
+                                                   f"(members by index; expected {want!r}: the named members, absent parts start / after)"))
+                continue
+            res["nontrivial"].add(("align-names", ta, da))
+        if obs != mod:
+            res["disagreements"].append(dict(base, stream="align-names", impl=repr(obs), model=repr(mod)))
+    # writer: names printed for every alignment
+    tabs = None
+    nw = 0
+    for h in [None, 0, 1, 2, 3, 4]:
+        for v in [None, 0, 1, 2]:
+            for wrap in ((True, False) if (h, v) == (None, None) else (True,)):
+                a = (h, v) if wrap else None
+                lay = (((10, 2), (10, 2)), None, None, a, None)
+                acs = {"global": None, "langs": [{"name": "en-US", "layout": None,
+                                                  "caps": [{"layout": lay, "nodes": [["text", "w0", None]]}]}]}
+                out = impl.call(lambda: DFXPWriter().write(posgen.build(acs)))
+                m = oracle_batch([(1215, None if a is None else Some(geom.a_align_w(a)))])[0]
+                tabs = (m[0], m[1])
+                res["evaluations"] += 1
+                if isinstance(out, Err):
+                    res["disagreements"].append({"stream": "align-names-writer", "input": acs, "impl": repr(out), "model": repr(m)})
+                    continue
+                parsed = dfxpdoc7.parse_written(out.v, ["w0"])
+                regs = [att for rid_, att in parsed[0] if att.get("origin")] if parsed else []
+                got = (regs[0].get("textAlign"), regs[0].get("displayAlign")) if regs else "no region"
+                want = (None if m[2] == [] else m[2][0], None if m[3] == [] else m[3][0])
+                nw += 1
+                if got != want:
+                    res["disagreements"].append({"stream": "align-names-writer", "input": acs, "impl": repr(got), "model": repr(want)})
+    if tabs is not None and (list(tabs[0]) != HN or list(tabs[0]) != dfxpdoc7.HALIGN or list(tabs[1]) != dfxpdoc7.VALIGN):
+        res["disagreements"].append({"stream": "align-names-tables", "input": "names", "impl": repr((HN, dfxpdoc7.VALIGN)), "model": repr(tabs)})
+    res["distribution"]["alignment_names(reader: attribute value pairs judged / compared with the model; writer: alignments compared)"] = \
+        [n, len(cases), nw]
+
+
 NEAR_TIES = [0]
+READER = [0]
 SET_FALLBACK = [0]
 
 
@@ -764,12 +1024,16 @@ def close_layout(a, b, tol=Fraction(1, 10**9)):
 def run(ctx):
     from props.C13 import Printed
     res = {"evaluations": 0, "nontrivial": set(), "violations": [], "disagreements": [], "distribution": {},
-           "streams": 4, "notes": []}
+           "streams": 6, "notes": []}
     printed = Printed()
     stream_settings(ctx, res, printed)
     stream_vtt(ctx, res, printed)
     stream_dfxp(ctx, res)
     stream_history(ctx, res, printed)
+    stream_same_writer(ctx, res, printed)
+    stream_alignment_names(ctx, res)
+    res["distribution"]["vtt_timing_lines_whose_kept_settings_are_the_reader_model's(request 1213)"] = READER[0]
+    res["distribution"]["dfxp_written_document_vs_model(request 1211; lxml as an independent observer)"] = dict(DOCS)
     res["rule"] = ("settings: all 6x4 alignment pairs x padding/extent presence on a value grid + random layouts (percent, absolute "
                    "with video sizes, raw settings) x relativize x fit; WebVTT documents: captions with per-node layouts drawn from "
                    "a small pool (runs of equal layouts), verbatim settings documents; DFXP: layouts attached at every subset of "
@@ -785,10 +1049,14 @@ def run(ctx):
                     "one cue per maximal run of equal text-node layouts on node lists with BREAK / STYLE nodes (C12_vtt_split_by_layout_general)",
                     "tree level: DFXP write then read gives every word of a caption set of words / breaks / non-nested spans its expected effective layout; nearest ancestor wins",
                     "raw cue settings are passed through verbatim by the writer in every configuration",
+                    "reader side: the settings kept from a timing line are exactly the text between the white space after the end time and the trailing white space; they survive write -> read",
                     "effective-layout fallback node > caption > language; region table lookup total and faithful (no collision)",
-                    "region attributes printed and read back give the two-decimal layout with defaults start / after"],
-        "correspondence_only": ["the DFXP round trip through BeautifulSoup (region ids on div/p/span, region resolution on read)",
-                                "WebVTTReader keeping the raw cue settings of a timing line (regex)",
+                    "region attributes printed and read back give the two-decimal layout with defaults start / after",
+                    "alignment names: what the writer prints for any alignment reads back as the same members, absent ones as start / after (string level)",
+                    "region bookkeeping: layouts that need a region share one iff they are equal; table keys pairwise different; ids r0..r(n-1) without gaps",
+                    "cleanup_regions leaves the reader's result unchanged for every document; the written document's regions are exactly the referenced ones (no dangling reference, no orphan)"],
+        "correspondence_only": ["the DFXP round trip through BeautifulSoup (region resolution on read); the written document (region table after cleanup, region attribute of the element each word sits in) is compared with the model's document (request 1211) through lxml",
+                                "the regex engine behind WebVTTReader's timing line (the function it computes is model/VttSettings.v, compared on every verbatim document)",
                                 "cue text assembly, timing lines"]}
     return res
 
@@ -826,6 +1094,21 @@ def replay(ctx, rec):
         except (ValueError, TypeError):
             return True, o.v
         return oracle_batch([(1310, [geom.a_layout_w(t.v), ws])])[0] != 1, o.v
+    if tag == "align-names":
+        ta, da = rec["input"]
+        att = ("" if ta is None else ' tts:textAlign="%s"' % ta) + ("" if da is None else ' tts:displayAlign="%s"' % da)
+        r = impl.call(lambda: DFXPReader().read(ALIGN_DOC % att))
+        if isinstance(r, Err):
+            return True, repr(r)
+        lay = r.v.get_captions("en-US")[0].layout_info
+        al = None if lay is None or lay.alignment is None else geom.w_alignment(lay.alignment)
+        obs = None if al is None else tuple(None if x is None else x.v for x in al)
+        want = (HN.index(ta) if ta else 3, dfxpdoc7.VALIGN.index(da) if da else 2)
+        return obs != want, repr(obs)
+    if tag == "same-writer":
+        seq = [(a, l) for a, l in rec["input"]]
+        check_same_writer(rec["fmt"], tuple(rec["cfg"]), seq, res)
+        return bool(res["violations"]), (res["violations"] or [{"what": "ok"}])[0]["what"]
     if tag in ("dfxp", "vtt"):
         hist = [(f, tuple(c)) for f, c in rec.get("history") or []]
         if tag == "dfxp":
